@@ -1,5 +1,8 @@
 import Proofs.KNCount
 import Proofs.KNBlocks
+import Proofs.KNC07Base
+import Proofs.KNC07Discharge
+import Proofs.KNSorters
 /-!
 # C07 — Estimation result is independent of memory budget, block sizes and scheduling
 
@@ -127,39 +130,7 @@ example : corpusCount 3 2 [[3, 4, 5]] =
 
 /-! ## The whole tool: composition with C16 / C17 / C20 -/
 
-/-- the modelling options (everything on the command line that is *meant* to change the model) -/
-structure Opts where
-  /-- order, pruning thresholds, `--limit_vocab_file` exclusions, `--interpolate_unigrams` -/
-  cfg : Cfg
-  pruneVocab : Bool
-  /-- `--discount_fallback` -/
-  fallback : Option Disc
-
-/-- The parts of `lmplz` outside `Model/KNCount.lean`, *as executed* under a memory configuration
-`m : Mem` (`-S`, `--sort_block`, `--minimum_block`, `--block_count`, `--vocab_estimate`, `-T`) and a
-thread schedule `s : Sched`.  Nothing is assumed about them here; the theorems below take the facts
-they need as hypotheses. -/
-structure Impl (Mem Sched Text Out : Type) where
-  /-- slots per block of the CorpusCount chain (`pipeline.cc` + `chain.cc:43`) -/
-  cap : Mem → Nat
-  /-- tokeniser + `GrowableVocab` (initial size from `--vocab_estimate`, doubling): the id sequences
-  of the lines, special words skipped -/
-  encode : Mem → Text → List (List Word)
-  /-- `Sort<SuffixOrder, CombineCounts>`: block sort, spill to `-T`, multi-pass / lazy merge -/
-  sortCombine : Mem → Sched → List (List Rec) → List Rec
-  /-- AdjustCounts … Interpolate … PrintARPA / `--intermediate` writer, run as threads over chains
-  (with further external sorts between them) -/
-  post : Mem → Sched → Opts → List Rec → Out
-
-/-- the tool: `post ∘ sortCombine ∘ corpusCount ∘ encode` -/
-def lmplzOut {Mem Sched Text Out : Type} (I : Impl Mem Sched Text Out) (m : Mem) (s : Sched) (opts : Opts)
-    (text : Text) : Out :=
-  I.post m s opts (I.sortCombine m s (corpusCount opts.cfg.order (I.cap m) (I.encode m text)))
-
-/-- the configuration-free specification: C05's `estimate` on the ids by first occurrence, rendered -/
-def lmplzSpec {Text Out : Type} (render : Except Err Model → Out) (ids : Text → List (List Word)) (opts : Opts)
-    (text : Text) : Out :=
-  render (estimate opts.cfg opts.pruneVocab opts.fallback (ids text))
+/-! `Opts`, `Impl`, `lmplzOut`, `lmplzSpec` are defined in `Proofs/KNC07Base.lean` (namespace `KV.C07`). -/
 
 /-- **The output is a function of (corpus, modelling options) only.**  Hypotheses (visible, not
 proved here; each is the statement of another property's theorem):
@@ -183,19 +154,8 @@ theorem lmplz_eq_spec {Mem Sched Text Out : Type} (I : Impl Mem Sched Text Out)
     (h_sort : ∀ m s blocks, I.sortCombine m s blocks = combineSorted (blocks.flatten.mergeSort gramLe))
     (h_chain : ∀ m s full, I.post m s opts full = render (estimateFrom opts.cfg opts.pruneVocab opts.fallback full))
     (m : Mem) (s : Sched) :
-    lmplzOut I m s opts text = lmplzSpec render ids opts text := by
-  unfold lmplzOut lmplzSpec estimate
-  rw [h_chain, h_sort, h_vocab]
-  by_cases h1 : opts.cfg.order ≤ 1
-  · have e1 : opts.cfg.order = 1 := by omega
-    rw [if_pos h1, e1, count_combine_spec_one]
-    intro l hl w hw
-    have := h_ids l hl w hw
-    simp only [isSpecial, unk, bos, eos, Bool.or_eq_false_iff, beq_eq_false_iff_ne] at this
-    have h0 : w ≠ 0 := this.1.1
-    have h1 : w ≠ 1 := this.1.2
-    exact Nat.lt_of_le_of_ne (Nat.pos_of_ne_zero h0) (Ne.symm h1)
-  · rw [if_neg h1, count_combine_spec (by omega)]
+    lmplzOut I m s opts text = lmplzSpec render ids opts text :=
+  lmplz_eq_spec_base I render ids opts hN text h_vocab h_ids h_sort h_chain m s
 
 /-- **C07**: any two memory configurations and any two schedules give the same output. -/
 theorem lmplz_indep {Mem Sched Text Out : Type} (I : Impl Mem Sched Text Out)
@@ -206,9 +166,8 @@ theorem lmplz_indep {Mem Sched Text Out : Type} (I : Impl Mem Sched Text Out)
     (h_sort : ∀ m s blocks, I.sortCombine m s blocks = combineSorted (blocks.flatten.mergeSort gramLe))
     (h_chain : ∀ m s full, I.post m s opts full = render (estimateFrom opts.cfg opts.pruneVocab opts.fallback full))
     (m₁ m₂ : Mem) (s₁ s₂ : Sched) :
-    lmplzOut I m₁ s₁ opts text = lmplzOut I m₂ s₂ opts text := by
-  rw [lmplz_eq_spec I render ids opts hN text h_vocab h_ids h_sort h_chain,
-    lmplz_eq_spec I render ids opts hN text h_vocab h_ids h_sort h_chain]
+    lmplzOut I m₁ s₁ opts text = lmplzOut I m₂ s₂ opts text :=
+  lmplz_indep_base I render ids opts hN text h_vocab h_ids h_sort h_chain m₁ m₂ s₁ s₂
 
 /-! ### non-vacuity: an implementation satisfying all four hypotheses whose chain blocks differ -/
 
@@ -226,6 +185,186 @@ def exOpts : Opts := { cfg := { order := 2, thr := fun _ => 0, excl := fun _ => 
 example : lmplzOut exImpl 1 () exOpts exCorpus = lmplzOut exImpl 100 () exOpts exCorpus :=
   lmplz_indep exImpl id (fun t => t) exOpts (by decide) exCorpus (fun _ => rfl) (by decide)
     (fun _ _ _ => rfl) (fun _ _ _ => rfl) 1 100 () ()
+
+/-! ## The hypotheses of `lmplz_indep` discharged by C20 / C16 / C17
+
+Proofs in `Proofs/KNC07Discharge.lean` (names with suffix `_pf`); `toRec`, `toBlocks` translate KN records
+(reversed n-gram, count) into the records of C16's sort model (key in natural word order, payload). -/
+
+section discharged
+open KV.Vocab KV.Chain
+variable {W : Type} [DecidableEq W]
+
+/-- **`h_vocab` and `h_ids` discharged by C20 `vocab_ids_indep'`** (the content of
+`Proofs/VocabC07Bridge.lean`'s `lmplz_indep_growable`, here without `h_ids`).  Remaining vocabulary
+hypotheses: `h_enc` (the encoder *is* `GrowableVocab` over the tokenised text, initial size `xOf m`),
+`hx`, `hsp`, `hinj`/`hnz` (the 64-bit hash is injective and non-zero on the words that occur), `hmax`
+(fewer than 2^32-1 types). -/
+theorem lmplz_indep_vocab {Mem Sched Out : Type}
+    (I : Impl Mem Sched (List (List W)) Out) (render : Except Err Model → Out) (opts : Opts)
+    (hN : 1 ≤ opts.cfg.order) (text : List (List W))
+    (hash : W → Nat) (unk bos eos : W) (unkCapHash : Nat) (xOf : Mem → Nat)
+    (hx : ∀ m, 1 ≤ xOf m ∧ xOf m ≤ 2^63)
+    (h_enc : ∀ m t, I.encode m t = growableIds hash unk bos eos unkCapHash (xOf m) t)
+    (hsp : unk ≠ bos ∧ unk ≠ eos ∧ bos ≠ eos)
+    (hinj : InjOn hash ([unk, bos, eos] ++ text.flatten))
+    (hnz : ∀ w, w ∈ [unk, bos, eos] ++ text.flatten → hash w ≠ 0)
+    (hmax : (specEncode unk bos eos text).2 < kWordIndexMax)
+    (h_sort : ∀ m s blocks, I.sortCombine m s blocks = combineSorted (blocks.flatten.mergeSort gramLe))
+    (h_chain : ∀ m s full, I.post m s opts full = render (estimateFrom opts.cfg opts.pruneVocab opts.fallback full))
+    (m₁ m₂ : Mem) (s₁ s₂ : Sched) :
+    lmplzOut I m₁ s₁ opts text = lmplzOut I m₂ s₂ opts text :=
+  lmplz_indep_vocab_pf I render opts hN text hash unk bos eos unkCapHash xOf hx h_enc hsp hinj hnz hmax h_sort h_chain m₁ m₂ s₁ s₂
+
+/-- **`h_sort` as a theorem of C16** (`extSort_canon` + `Canon.unique` with `counting_suffix`): for
+duplicate-free chain blocks, every external sort with `CombineCounts` under `SuffixOrder` — every
+tie-break policy, every merge plan (any number of passes, any grouping, lazy or not), any number of
+blocks including none and one (`ReadSingle`) — returns the sorted, combined table of all records. -/
+theorem sort_hyp_discharged (blocks : List (List Count.Rec)) (hnd : ∀ b ∈ blocks, (b.map (·.1)).Nodup)
+    (pick : KV.Sort.Pick KV.Sort.Rec) (plan : List (List Nat)) :
+    KV.Sort.extSort KV.Sort.suffixLt KV.Sort.combineCounts pick (toBlocks blocks) plan =
+      some ((combineSorted (blocks.flatten.mergeSort gramLe)).map toRec) :=
+  sort_hyp_discharged_pf blocks hnd pick plan
+
+/-- … in particular the plan the code computes (`Sort::Merge`, `MergingReader::Run`,
+`OwningMergingReader`) for every accepted `(entry_size, buffer_size, total_memory)` and every lazy
+memory: it completes (C16 `codeSort_ok`) and returns that table (C16 `codeSort_refines`). -/
+theorem sort_hyp_discharged_code {entrySize bufferSize totalMemory : Nat} {cfg : KV.Sort.Cfg}
+    (hcfg : KV.Sort.mkCfg entrySize bufferSize totalMemory = .ok cfg)
+    (blocks : List (List Count.Rec)) (hnd : ∀ b ∈ blocks, (b.map (·.1)).Nodup)
+    (pick : KV.Sort.Pick KV.Sort.Rec) (lazyMem : Nat) :
+    ∃ p ret, KV.Sort.codeSort KV.Sort.suffixLt KV.Sort.combineCounts pick cfg lazyMem (toBlocks blocks) =
+      .ok ((combineSorted (blocks.flatten.mergeSort gramLe)).map toRec, p, ret) :=
+  sort_hyp_discharged_code_pf hcfg blocks hnd pick lazyMem
+
+/-- every block that leaves CorpusCount is duplicate-free (order 1: for a corpus without the ids of
+`<unk>`, `<s>`, which `RunWithVocab` skips) -/
+theorem count_blocks_nodup {N : Nat} (hN : 1 ≤ N) (cap : Nat) (corpus : List (List Word))
+    (hw : ∀ s ∈ corpus, ∀ w ∈ s, 2 ≤ w) : ∀ d ∈ corpusCount N cap corpus, (d.map (·.1)).Nodup :=
+  blocks_nodup_pf hN cap corpus hw
+
+/-- **C17 `chain_ring`, read at the end of a run** (`chain_deterministic`): for every number of blocks
+`b ≥ 1`, every chain length, every data and every schedule (`Reach` = any finite interleaving of the
+threads), once `Chain::Wait` has returned, stage `k+1` has received exactly the source's blocks, in
+order, each exactly once, each transformed by the composition of the stage functions before it, followed
+by one poison.  Block boundaries and interleavings are not observable by a stage. -/
+theorem chain_stream_deterministic {b m : Nat} {data : List Nat} {c : Chain} (hb : 0 < b) (hm : 1 ≤ m)
+    (hr : Chain.Reach (Chain.init b m data) c) (hfin : c.main = .finished) :
+    ∀ k, k + 1 ≤ m → (c.st (k + 1)).inp = (data.map (seenAt k)).map Item.val ++ [Item.poison] :=
+  chain_stream_deterministic_pf hb hm hr hfin
+
+/-- **`lmplz_eq_spec` with `h_vocab`, `h_ids`, `h_sort` discharged.**
+
+Discharged:
+* `h_vocab` by C20 `KV.Vocab.vocab_ids_indep'` (ids = first-occurrence order for every initial table
+  size / doubling history) — remaining: `h_enc` (the encoder IS `GrowableVocab`: `growableIds`), `hx`
+  (admissible size argument), `hsp`, `hinj`, `hnz` (64-bit MurmurHash injective and non-zero on the words
+  of the text and the three specials), `hmax` (fewer than 2^32-1 word types);
+* `h_ids` by the definition of the specification (`firstOccurrenceIds_not_special`);
+* `h_sort` by C16 `extSort_canon`, `Canon.unique`, `counting_suffix`, `extSort_isSome`
+  (`sort_hyp_discharged`) and this property's `blocks_nodup` — remaining: `h_sortImpl`, "the table that
+  leaves the first sort, translated record by record, IS the result of C16's external-sort model on the
+  translated chain blocks for *some* tie-break policy and *some* merge plan" (both may depend on the
+  memory configuration, the schedule and the data in any way).  By `sort_hyp_discharged_code` the plan
+  computed by `Sort::Merge` for any accepted configuration is one of them.
+
+Not discharged — `h_chainImpl`: "everything after the first sort (AdjustCounts, InitialProbabilities,
+Interpolate, the context/suffix sorts between them, the printer), run as threads over chains whose block
+sizes and counts come from the memory configuration, computes `render (estimateFrom …)`", where
+`estimateFrom` is C05's stream model and `render` an *arbitrary* function of the exact model (float32
+arithmetic, `log10`, number printing and the ARPA / intermediate writers live in it).  What the other
+properties provide towards it: C17 `chain_ring` (here `chain_stream_deterministic`): in a chain every
+stage sees its predecessor's blocks exactly once, in order, for every schedule and block count; this
+property's `collapse_partition_indep` / `prune_partition_indep`: the two stages that work block by block
+(`CollapseStream`, `PruneNGramStream`) do not depend on the block boundaries; C16 `extSort_eq_spec` for
+the later sorts (total orders, no combiner).  What is missing to *derive* `h_chainImpl` from them: C17's
+chain has one stateless per-block function per stage and a single chain, whereas the KN stages are
+stateful stream transformers over several chains at once (AdjustCounts reads one and writes `N`), and
+`Model/KN.lean` has the later sorts as `List.mergeSort` inside `estimateFrom` rather than as a parameter. -/
+theorem lmplz_eq_spec_discharged {Mem Sched Out : Type}
+    (I : Impl Mem Sched (List (List W)) Out) (render : Except Err Model → Out) (opts : Opts)
+    (hN : 1 ≤ opts.cfg.order) (text : List (List W))
+    (hash : W → Nat) (unk bos eos : W) (unkCapHash : Nat) (xOf : Mem → Nat)
+    (hx : ∀ m, 1 ≤ xOf m ∧ xOf m ≤ 2^63)
+    (h_enc : ∀ m t, I.encode m t = growableIds hash unk bos eos unkCapHash (xOf m) t)
+    (hsp : unk ≠ bos ∧ unk ≠ eos ∧ bos ≠ eos)
+    (hinj : InjOn hash ([unk, bos, eos] ++ text.flatten))
+    (hnz : ∀ w, w ∈ [unk, bos, eos] ++ text.flatten → hash w ≠ 0)
+    (hmax : (specEncode unk bos eos text).2 < kWordIndexMax)
+    (h_sortImpl : ∀ m s blocks, ∃ pick plan,
+      KV.Sort.extSort KV.Sort.suffixLt KV.Sort.combineCounts pick (toBlocks blocks) plan =
+        some ((I.sortCombine m s blocks).map toRec))
+    (h_chainImpl : ∀ m s full, I.post m s opts full = render (estimateFrom opts.cfg opts.pruneVocab opts.fallback full))
+    (m : Mem) (s : Sched) :
+    lmplzOut I m s opts text = lmplzSpec render (firstOccurrenceIds unk bos eos) opts text :=
+  lmplz_eq_spec_discharged_pf I render opts hN text hash unk bos eos unkCapHash xOf hx h_enc hsp hinj hnz hmax h_sortImpl h_chainImpl m s
+
+/-- **C07 with the hypotheses discharged**: any two memory configurations and any two schedules give
+the same output.  Remaining hypotheses: `h_enc`, `hx`, `hsp`, `hinj`, `hnz`, `hmax` (C20's contract),
+`h_sortImpl` (the first sort is an instance of C16's model), `h_chainImpl` (see `lmplz_eq_spec_discharged`). -/
+theorem lmplz_indep_discharged {Mem Sched Out : Type}
+    (I : Impl Mem Sched (List (List W)) Out) (render : Except Err Model → Out) (opts : Opts)
+    (hN : 1 ≤ opts.cfg.order) (text : List (List W))
+    (hash : W → Nat) (unk bos eos : W) (unkCapHash : Nat) (xOf : Mem → Nat)
+    (hx : ∀ m, 1 ≤ xOf m ∧ xOf m ≤ 2^63)
+    (h_enc : ∀ m t, I.encode m t = growableIds hash unk bos eos unkCapHash (xOf m) t)
+    (hsp : unk ≠ bos ∧ unk ≠ eos ∧ bos ≠ eos)
+    (hinj : InjOn hash ([unk, bos, eos] ++ text.flatten))
+    (hnz : ∀ w, w ∈ [unk, bos, eos] ++ text.flatten → hash w ≠ 0)
+    (hmax : (specEncode unk bos eos text).2 < kWordIndexMax)
+    (h_sortImpl : ∀ m s blocks, ∃ pick plan,
+      KV.Sort.extSort KV.Sort.suffixLt KV.Sort.combineCounts pick (toBlocks blocks) plan =
+        some ((I.sortCombine m s blocks).map toRec))
+    (h_chainImpl : ∀ m s full, I.post m s opts full = render (estimateFrom opts.cfg opts.pruneVocab opts.fallback full))
+    (m₁ m₂ : Mem) (s₁ s₂ : Sched) :
+    lmplzOut I m₁ s₁ opts text = lmplzOut I m₂ s₂ opts text :=
+  lmplz_indep_discharged_pf I render opts hN text hash unk bos eos unkCapHash xOf hx h_enc hsp hinj hnz hmax h_sortImpl h_chainImpl m₁ m₂ s₁ s₂
+
+end discharged
+
+open KV.KN.Interp KV.Vocab in
+/-- **C07, as far as the hypotheses can be discharged today.**  Any two memory configurations and any
+two schedules give the same output.  What is *proved* inside: block-size independence of
+CorpusCount (`count_block_indep`), vocabulary ids independent of `--vocab_estimate` / doubling history
+(C20 `vocab_ids_indep'`), the first external sort independent of blocks, tie-break policy and merge
+plan (C16 `extSort_canon`/`Canon.unique`/`counting_suffix`), special ids never reach `Append`, the
+later context/suffix sorts may be ANY correct sorts chosen per configuration, schedule and order
+(`estimateFromWith_eq`: the sorted permutation of records with distinct n-grams is unique), and the
+streaming stages equal the specification (C05 `estimate_eq_spec`, not needed for this statement).
+What is still *assumed* (each named):
+* `h_enc`, `hx` — the encoder is `GrowableVocab` (C20's model `growableIds`) with some initial size;
+* `hinj`, `hnz`, `hmax`, `hsp` — the 64-bit Murmur hash is injective and non-zero on the words that
+  occur, fewer than 2^32−1 types, the three special strings differ;
+* `h_sortImpl` — the sort after CorpusCount is some run of C16's `extSort` model;
+* `h_stages` — the threads over the chains compute the composition of the stage functions of
+  Model/KN.lean (`estimateFromWith`, with whatever sorters); C17's `chain_ring` gives this for
+  stateless per-block stages only (`chain_stream_deterministic`), not for these stream functions;
+* `h_sorters` — those later sorts return sorted permutations (what C16 proves of `extSort`/`codeSort`);
+* `hk` — the tree has the repaired special-unigram handling (`keep_specials_tree` in C05/C06);
+* `render` is an arbitrary function of the exact model: float32 arithmetic, `log10f` and printing live
+  there and are deterministic functions of their inputs (not modelled). -/
+theorem lmplz_indep_final {W : Type} [DecidableEq W] {Mem Sched Out : Type}
+    (I : Impl Mem Sched (List (List W)) Out) (render : Except Err Model → Out) (opts : Opts)
+    (hN : 1 ≤ opts.cfg.order) (text : List (List W))
+    (hash : W → Nat) (unk bos eos : W) (unkCapHash : Nat) (xOf : Mem → Nat)
+    (hx : ∀ m, 1 ≤ xOf m ∧ xOf m ≤ 2^63)
+    (h_enc : ∀ m t, I.encode m t = growableIds hash unk bos eos unkCapHash (xOf m) t)
+    (hsp : unk ≠ bos ∧ unk ≠ eos ∧ bos ≠ eos)
+    (hinj : InjOn hash ([unk, bos, eos] ++ text.flatten))
+    (hnz : ∀ w, w ∈ [unk, bos, eos] ++ text.flatten → hash w ≠ 0)
+    (hmax : (specEncode unk bos eos text).2 < kWordIndexMax)
+    (h_sortImpl : ∀ m s blocks, ∃ pick plan,
+      KV.Sort.extSort KV.Sort.suffixLt KV.Sort.combineCounts pick (toBlocks blocks) plan =
+        some ((I.sortCombine m s blocks).map toRec))
+    (sorters : Mem → Sched → Nat → Sorters)
+    (h_stages : ∀ m s full, I.post m s opts full =
+      render (estimateFromWith (sorters m s) opts.cfg opts.pruneVocab opts.fallback full))
+    (h_sorters : ∀ m s n, SortsOK (sorters m s n))
+    (hk : opts.cfg.keepSpecials = true)
+    (m₁ m₂ : Mem) (s₁ s₂ : Sched) :
+    lmplzOut I m₁ s₁ opts text = lmplzOut I m₂ s₂ opts text :=
+  lmplz_indep_discharged2 I render opts hN text hash unk bos eos unkCapHash xOf hx h_enc hsp hinj hnz hmax
+    h_sortImpl sorters h_stages h_sorters hk m₁ m₂ s₁ s₂
 
 /-! ## chain block boundaries inside the pipeline: the two compacting iterators -/
 
